@@ -2440,6 +2440,10 @@ impl<'de, 'e> de::Deserializer<'de> for YamlDeserializer<'de, 'e> {
                         .map(|ev| ev.location())
                         .unwrap_or_else(|| replay.last_location());
 
+                    // Serde-generated errors for this value (they carry no span of their own) are
+                    // attributed to the value, not to the key read before it.
+                    let _value_guard = MissingFieldLocationGuard::new(reference_location);
+
                     #[cfg(any(feature = "garde", feature = "validator"))]
                     {
                         if let (Some(seg), Some(garde_ref)) = (pending_segment, self.garde.as_mut())
@@ -2487,6 +2491,10 @@ impl<'de, 'e> de::Deserializer<'de> for YamlDeserializer<'de, 'e> {
                         .unwrap_or_else(|| self.ev.last_location());
 
                     let reference_location = self.ev.reference_location();
+
+                    // Serde-generated errors for this value (they carry no span of their own) are
+                    // attributed to the value, not to the key read before it.
+                    let _value_guard = MissingFieldLocationGuard::new(reference_location);
 
                     #[cfg(any(feature = "garde", feature = "validator"))]
                     {
